@@ -14,8 +14,8 @@ ID = 'C05'
 READY = True
 LEVEL_TEXT = ('Partial. Coq theorems over R: project is feasible, the nearest feasible point and idempotent for finite/one-sided/infinite/degenerate bounds; '
               'project_onto_tr is in the box for every value brentq may return, unchanged and inside the radius when the projection already is, inside the radius when f(t)<=0; '
-              'an SPG update xNew+alpha(P-xNew) with feasible xNew, P and 0<=alpha<=1 is feasible; the step length built from the regenerated line-search kernels is in [0,1] '
-              '(non-monotone rule given q<=qMax; monotone rule given d.s<=0, a hypothesis); outer loop for ARBITRARY value/gradient oracles and ARBITRARY step proposals: '
+              'an SPG update xNew+alpha(P-xNew) with feasible xNew, P and 0<=alpha<=1 is feasible; the clipped step length min(1,max(0,alpha)) (repo commit d722144, hand kernel clip01 matched syntactically against the source) '
+              'is in [0,1] for every line-search value, so every SPG update is a convex combination in BOTH line-search modes without hypotheses; outer loop for ARBITRARY value/gradient oracles and ARBITRARY step proposals: '
               'accepted objective values non-increasing (default mode, eta1>=0), flag=True only at a ConvergedAt event at the returned point with |P(y-g)-y|<tol, '
               'flag=False => returned point is the current iterate; convex + exact projected-gradient stationarity => bound-constrained minimiser. '
               'Not proved (tested by L2 only): feasibility of every iterate as one theorem about the whole solver (find_generalized_cauchy_point and the SPG loop are not modelled; '
@@ -29,7 +29,7 @@ TRUSTED = ['Coq 8.16.1 kernel + vm_compute (no native_compute)', 'tools/vlib/py2
            'harness: duck-typed polynomial objectives (shared with C01), recording callback / update_precond, monkey-patched TrustRegionSPG.solve_spg_subproblem and optimize.brentq for logging only',
            'near-tie rule as C01 (implementation re-run with <= 2 ulp noise on oracle arguments)', 'theorems are over exact reals; binary64 rounding (bounds may be exceeded by an ulp through y = x + s) is covered only by L2 with 4 ulp slack']
 ASSUMPTIONS = ['none on value/gradient oracles and on step proposals for descent / flag / returns-last', 'lb <= ub wherever both finite', '0 <= eta1, default (non-incremental) mode for descent',
-               'q <= qMax for the non-monotone step length (holds because q is in the history), d.s <= 0 for the monotone one', 'brentq returns some number (no assumption for box feasibility)']
+               'brentq returns some number (no assumption for box feasibility)']
 RULE = ('objectives as C01 (dyadic polynomials, 1..6 variables) with boxes whose components are finite, one-sided, infinite or degenerate (lb == ub), starts inside, on faces and on vertices, '
         'both line-search modes, settings forcing each exit; direct calls of project / project_onto_tr with points inside, outside the box and outside the radius; '
         'a case is non-trivial when at least one outer iteration runs (solver) or the root find is needed (project_onto_tr); distinct = distinct input tuples')
@@ -38,7 +38,7 @@ PREAMBLE = P1.PREAMBLE.split('Definition run_poly')[0] + '''
 Definition run_bc (A : list (list float)) (b c d : list float) (bs : list (@bound float)) (props : list (list float * float * bool * nat))
     (x0 : list float) (S : settings float) : list Z :=
   enc_run (@bc_minimize float NumF (pvalue A b c d) (pgrad A b c d) bs
-            (fun k _ => nth k props ([], F 0 0, false, O)) S x0).
+            (fun k _ => nth k props (map (fun _ => F 0 0) x0, F 0 0, false, O)) S x0).
 '''
 INF = math.inf
 
@@ -233,10 +233,33 @@ def gen_projection_cases(ctx, count):
     return out
 
 
+def clip_tie(ctx):
+    """fail-closed syntactic tie of the hand kernel clip01 / spg_alpha (model/M_C05_SPG.v) to the source: inside solve_spg_subproblem
+    the only assignments to `alpha` must be `alpha = line_search(ds, sBs, q, qMax, settings)` followed by
+    `alpha = min(1.0, max(0.0, alpha)) if sBs > 0 else 1.0`, and the update must be `z += alpha*s` (AST equality)."""
+    import ast
+    import os
+    try:
+        tree = ast.parse(open(os.path.join(C.REPO, 'optimism', 'TrustRegionSPG.py')).read())
+        fn = [n for n in tree.body if isinstance(n, ast.FunctionDef) and n.name == 'solve_spg_subproblem'][0]
+        d = lambda src: ast.dump(ast.parse(src).body[0])
+        assigns = [ast.dump(n) for n in ast.walk(fn) if isinstance(n, ast.Assign) and any(isinstance(t, ast.Name) and t.id == 'alpha' for t in n.targets)]
+        want = [d('alpha = line_search(ds, sBs, q, qMax, settings)'), d('alpha = min(1.0, max(0.0, alpha)) if sBs > 0 else 1.0')]
+        augs = [ast.dump(n) for n in ast.walk(fn) if isinstance(n, ast.AugAssign) and isinstance(n.target, ast.Name) and n.target.id == 'z']
+        ok = assigns == want and augs == [d('z += alpha*s')]
+        msg = 'assignments to alpha: %d (expected the line search followed by the [0,1] clip); updates of z: %d' % (len(assigns), len(augs))
+    except Exception as ex:
+        ok, msg = False, repr(ex)
+    if not ok:
+        ctx.fail('translator', 'the step-length rule of solve_spg_subproblem no longer matches the hand kernel spg_alpha/clip01 of model/M_C05_SPG.v (%s)' % msg)
+    ctx.cov['clip_tie'] = ok
+
+
 def correspondence(ctx, model_ok):
     mods = _mods()
     jnp, TR = mods
     from scipy import optimize
+    clip_tie(ctx)
     cases = [f1p_case()] + gen_cases(ctx, ctx.n(120, 1200))
     outs = []
     hist = {}
